@@ -28,8 +28,10 @@ VALIDATION_CLAMP = [0.0, 0.001, 0.0005, 20.0, 25.0, -1.0, 0.5, 1.0, 1.5, float("
 def jobs_for(prop, tier):
     if prop == "C11":
         return ["set_phase"]
-    if prop == "C10":
-        return ["set_phase_range"]  # reachability of phases: set_phase cannot leave [0, 2^24)
+    if prop in ("C10", "C17"):
+        # C10: reachability of phases; C17: set_phase(any finite f32) cannot leave [0, 2^24), so no
+        # later table index or counter addition can go out of range, and no overflow check fires
+        return ["set_phase_range"]
     if prop == "C20":
         return ["clamps"]
     return []
@@ -227,7 +229,7 @@ def _job_set_phase(stage, fns, consts, log_path, only_range=False):
                  "(and (bvult %s #x01000000) (= %s #x00000000) (not %s)%s)" % (
                      acc, last, flag, "".join(" (not %s)" % pc for pc in panics))))
     if only_range:
-        out[-1]["label"] = "C10/reachable-phases/set_phase-keeps-counter-below-2^24"
+        out[-1]["label"] = "C10,C17/set_phase-keeps-counter-below-2^24-for-every-finite-phase"
         return out
     # p >= 0: |acc' - frac(p)*2^24| <= 4 counter steps (2^-22 cycle), computed exactly in f64
     frac = "(fp.sub RNE p (fp.roundToIntegral RTZ p))"
